@@ -72,9 +72,20 @@ def tlc_eval_robust(chk: Check, insts, name):
 _N_EVAL = 0
 
 
-def lib_eval(I, what, n_batch=1, eps=None):
+def previous_like(insts, I):
+    """the previous instance with the same trial kind and shape (for lib_eval(reprepare_from=...))"""
+    key = lambda X: (X["kind"], X["norb"], X["nu"], X["nd"])
+    prev = [J for J in insts if J["id"] < I["id"] and key(J) == key(I)]
+    return prev[-1] if prev else None
+
+
+def lib_eval(I, what, n_batch=1, eps=None, reprepare_from=None):
     """call the library on instance I.  what in {"ov","e","fb"}.  returns dict container -> array(nw[,nchol])
-    or {"raises": repr}"""
+    or {"raises": repr}.
+    reprepare_from=J: the ham_data / wave_data DICTIONARIES were first prepared and used for another problem J of the
+    same shape, then their input fields were overwritten with I's and they were prepared again (the sampler re-prepares
+    the same dictionary after trial.optimize, users after rotating orbitals or changing integrals): nothing prepared
+    for J may survive into the results for I"""
     import jax
     import jax.numpy as jnp
     # every instance is a new trial object, hence new XLA executables: thousands of them exhaust the process's memory
@@ -86,6 +97,17 @@ def lib_eval(I, what, n_batch=1, eps=None):
         jax.clear_caches()
         gc.collect()
     trial, wd, hd, ham = wf.build_lib(I, n_batch=n_batch, eps=eps)
+    if reprepare_from is not None:
+        J = reprepare_from
+        trialJ, wdJ, hdJ, hamJ = wf.build_lib(J, n_batch=n_batch, eps=eps)
+        hdJ = hamJ.build_measurement_intermediates(hdJ, trialJ, wdJ)
+        try:
+            trialJ.get_rdm1(wdJ)
+        except Exception:      # not every kind has a 1-RDM
+            pass
+        hdJ.update(hd)          # the input fields (h0, h1, chol, ...) of I; whatever was derived for J is still in there
+        wdJ.update(wd)
+        hd, wd = hdJ, wdJ
     ups = jnp.array(np.array([w[0] for w in I["walkers"]]))
     dns = jnp.array(np.array([w[1] for w in I["walkers"]]))
     out = {}
